@@ -53,7 +53,7 @@ pub use crate::rpc::services::replication_impl::{
     ReplicationService,
 };
 pub use crate::rpc::{ConsistencyClient, ReplicationClient};
-use crate::replication::{TaskDistributor, TaskServiceContext};
+use crate::replication::{ReplicationHandle, TaskDistributor, TaskServiceContext};
 use crate::statistics::SystemStatistics;
 use crate::{ReplicatedStoreHandle, Storage};
 
@@ -103,4 +103,39 @@ pub fn store_handle<S: Storage>(
         task_service: distributor.0.clone(),
         statistics: SystemStatistics::default(),
     }
+}
+
+/// A public handle on the repair poller (the replication cycle task).
+#[derive(Clone)]
+pub struct Poller(ReplicationHandle);
+
+impl Poller {
+    pub fn membership_change(&self, changes: MembershipChange) {
+        self.0.membership_change(changes)
+    }
+
+    pub fn kill(&self) {
+        self.0.kill()
+    }
+}
+
+/// Starts the real repair poller with the given repair interval.
+pub async fn start_poller<S: Storage>(
+    group: KeyspaceGroup<S>,
+    network: RpcNetwork,
+    repair_interval: std::time::Duration,
+) -> Poller {
+    let mut ctx = crate::replication::poller_verif::context(group, network);
+    ctx.repair_interval = repair_interval;
+    Poller(crate::replication::start_replication_cycle(ctx).await)
+}
+
+/// Runs the store extension's membership glue: every event of the node's membership
+/// stream is forwarded to the task distributor and to the repair poller.
+pub async fn run_membership_glue(
+    distributor: Distributor,
+    poller: Poller,
+    node: DatacakeHandle,
+) {
+    crate::watch_membership_changes(distributor.0, poller.0, node).await
 }
